@@ -130,6 +130,21 @@ Theorem C18_silent_when_honoured_partial :
 Proof. exact silent. Qed.
 Print Assumptions C18_silent_when_honoured_partial.
 
+(* End to end, PARTIAL (plain command lines; records that do not contain the phrase of another
+   category): whenever the specification accepts a run with event list l, the model's records
+   name exactly l and the closing lines print exactly the specification's totals of l - the
+   number of all events, of missing quote includes and of missing angle includes. *)
+Theorem C18_end_to_end_partial :
+  forall c fuel cb pls l,
+    fs_structured (fs_of c) -> run_ok c pls = true ->
+    find_S c fuel cb pls = Ok l ->
+    exists o, find_M c fuel cb pls = Ok o /\ l = map sev_of_wrec (all_records o) /\
+      (forallb clean (all_records o) = true ->
+       let '(n, u, s) := totals_S l in
+       fst (closing_M o) = line_if n text1 ++ line_if u text2 ++ line_if s text3).
+Proof. exact end_to_end. Qed.
+Print Assumptions C18_end_to_end_partial.
+
 (* the restriction is needed: 'clang++ -fsycl' - the unregistered flag is taken for
    -fsycl-is-device and no warning names it *)
 Theorem C18_flag_abbreviation_refuted :
